@@ -25,7 +25,7 @@ def main():
     names = [d["name"] for d in docs]
     exprs = [
         coll("any", ["m3"], "both", "k", "v", match(["v", "V"], "==", "2")),            # errors on some maps, decides on others
-        coll("all", ["m"], "both", "k", "v", match(["v"], "!=", "zz")),
+        coll("all", ["m4"], "both", "k", "v", match(["v", "V"], "==", "2")),
         match(["m", "zz"], "==", "1"),                                                    # absent key / absent parent / struct
         match(["byname", "a", "x"], "==", "1"),
         match(["s"], "matches", "^sc"),
@@ -37,7 +37,7 @@ def main():
     evs = [{"e": i + 1, "c": 1, "f": False} for i in range(7)] + [{"e": 1, "c": 2, "f": False}, {"e": 3, "c": 2, "f": False},
            {"e": 8, "c": 1, "f": True}, {"e": 9, "c": 1, "f": True}]
     # documents: the maps / absent / records documents for evaluators, a few containers for filters
-    pick = [i for i, n in enumerate(names) if n in ("maps", "absent", "absent-b", "records", "items", "ifaces", "maps-err-mid", "maps-err-last", "smap", "map-err", "ints", "nil")]
+    pick = [i for i, n in enumerate(names) if n in ("maps", "maps-b", "absent", "absent-b", "records", "items", "ifaces", "maps-err-mid", "maps-err-last", "smap", "map-err", "ints", "nil")]
     docs_sel = [docs[i] for i in pick]
     # the harness rebuilds documents by index into the concatenated worlds: keep the full list, restrict calls in the model
     world = vlib.api_world("hist", worlds, docs, data["cfgs"], [0, 2], exprs, 2 if quick else 3, evs=evs)
